@@ -24,6 +24,20 @@ static void pr_pls(const char *pre, PLSMODEL *m)
 #undef PM
 #undef PV
 }
+/* validation statistics of a PLS model are filled by other routines (cross validation, y-scrambling):
+ * give every such field its own shape and contents so that a table written from, or read into,
+ * the wrong field cannot go unnoticed */
+static void fillm(matrix *m, size_t r, size_t c, double base)
+{
+  size_t i, j; ResizeMatrix(m, r, c);
+  for(i = 0; i < r; i++) for(j = 0; j < c; j++) m->data[i][j] = base + 0.125*(double)i + 0.0078125*(double)j;
+}
+static void fill_pls_stats(PLSMODEL *m, size_t k)
+{
+  fillm(m->predicted_y, 3+k, 2, 10.0); fillm(m->pred_residuals, 3+k, 2, -20.0);
+  fillm(m->r2y_recalculated, 2+k, 1, 0.5); fillm(m->r2y_validation, 2+k, 1, 0.25); fillm(m->q2y, 2+k, 2, 0.75);
+  fillm(m->sdep, 2+k, 1, 538.0); fillm(m->sdec, 2+k, 1, 441.0); fillm(m->bias, 1+k, 1, 3.0); fillm(m->yscrambling, 4+k, 3, 7.0);
+}
 static void pr_cpca(const char *pre, CPCAMODEL *m)
 {
   char b[96]; size_t k;
@@ -58,7 +72,9 @@ int main(void)
       }
       else if(!strcmp(kind, "pls")){
         matrix *x = rd_matrix(), *y = rd_matrix(); long xs = rd_long(), ys = rd_long(); size_t nlv = rd_size(); PLSMODEL *m; NewPLSModel(&m);
-        PLS(x, y, nlv, (int)xs, (int)ys, m, NULL); pr_pls("w", m); WritePLS(path, m); pr_pls("w2", m);
+        PLS(x, y, nlv, (int)xs, (int)ys, m, NULL);
+        if(nlv % 2 == 1 || x->row % 2 == 0) fill_pls_stats(m, nlv % 3);
+        pr_pls("w", m); WritePLS(path, m); pr_pls("w2", m);
         DelPLSModel(&m); DelMatrix(&x); DelMatrix(&y);
       }
       else{
